@@ -516,6 +516,24 @@ def check_ma_selector(repo, rep):
                     else:
                         rep.undecided_item(f"ma matype {k}: single value on a long input is computed differently from {target}() but agrees on the witness valuations")
                 rep.instance(rid, f"matype={k}|long-single", None)
+            # the same on a plain 1-D series (the averages accept one instead of candles)
+            r5 = IR.run_indicator(repo, "jesse/indicators/ma.py", fn, NLs, False, warmup=Ws, overrides={"matype": k, "period": 5}, one_d=True)
+            r6 = IR.run_indicator(repo, trel, tfn, NLs, False, warmup=Ws, overrides=over, one_d=True)
+            if r5[0] == "ok" and r6[0] == "ok" and isinstance(r5[1], D) and isinstance(r6[1], D) and hid(r5[1]) != hid(r6[1]):
+                wit = None
+                try:
+                    for vn, val in IR.valuations(NLs):
+                        x, y = eval_dag(r5[1], val), eval_dag(r6[1], val)
+                        if x is not None and y is not None and not ((x != x and y != y) or abs(x - y) <= 1e-9 * max(1.0, abs(x), abs(y))):
+                            wit = (vn, x, y)
+                            break
+                except Undecided:
+                    wit = None
+                if wit:
+                    rep.violation(rid, f"ma|matype={k}|single-value-1d", f"ma(series, matype={k}, sequential=False) on a 1-D series longer than the warm-up window differs from "
+                                                                           f"{target}(series, sequential=False) (valuation '{wit[0]}': {wit[1]!r} vs {wit[2]!r}): the selector slices a 1-D input, the selected average does not")
+            if r5[0] == "ok" and r6[0] == "ok":
+                rep.instance(rid, f"matype={k}|long-single-1d", None)
         except Undecided as e:
             rep.undecided_item(f"ma matype {k}: {e}")
     # an undocumented number raises
